@@ -516,6 +516,16 @@ class CFG:
                 return cur
         if isinstance(e, ast.UnaryOp) and isinstance(e.op, ast.Not):
             return self.cond(e.operand, f, t, frames, handler_types, owner, mark)
+        if isinstance(e, ast.Compare) and len(e.ops) == 1 and isinstance(e.ops[0], (ast.IsNot, ast.NotEq, ast.NotIn)):
+            # tests are kept in positive form: `a is not b` is the test `a is b` with the edges swapped
+            pos = ast.Compare(left=e.left, ops=[{ast.IsNot: ast.Is, ast.NotEq: ast.Eq, ast.NotIn: ast.In}[type(e.ops[0])]()],
+                              comparators=e.comparators)
+            ast.copy_location(pos, e)
+            pos._parent = getattr(e, "_parent", None)
+            pos._negated_from = e
+            if hasattr(e, "_module"):
+                pos._module = e._module
+            return self.cond(pos, f, t, frames, handler_types, owner, mark)
         n = self.new("test", e, owner=owner)
         n.cont = mark
         if isinstance(e, ast.Constant):
